@@ -1,9 +1,10 @@
-\* C45 phase 2 leg A thorough: 3 rules servers with <= 2 rules each, fail modes none/warn/open/mid, WARN and ABORT,
-\* 5 filter combinations; all interleavings.
+\* C45 phase 2 leg A thorough: 3 rules servers with <= 1 rule each, fail modes none/warn/mid (a call that fails when
+\* opened behaves like one failing before its first message; it is covered with 2 servers in the quick config, which the
+\* thorough tier does not repeat), WARN and ABORT, 5 filter combinations; all interleavings.  33 750 requests.
 SPECIFICATION Spec
 CONSTANTS NClients = 3
-          FailModes = {"none", "warn", "open", "mid"}
+          FailModes = {"none", "warn", "mid"}
           Strategies = {"WARN", "ABORT"}
-          MaxPerClient = 2
+          MaxPerClient = 1
 INVARIANTS C45_RequestPathSatisfiesProperty OrderIndependent
 CHECK_DEADLOCK TRUE
